@@ -150,7 +150,7 @@ CHECKS.update({
              "state and back (caches and re-derived guards exempt by a reasoned table), and the restore re-guards what it puts "
              "back. The four fields the pinned tree lost across a suspension (this, the block-scope stack, pending finally "
              "completions of the VM and of frames) were reproduced with awaiting programs and repaired (fix: commit). Schedules, "
-             "settlement order and combinator semantics are not decided. Also: whoever searches the current frame for an exception handler goes on to the callers' frames (an exception injected on resume is a throw at the suspension point). Frames rebuilt from a saved state root their registers in their own guard (shared with C02).",
+             "settlement order and combinator semantics are not decided. Also: whoever searches the current frame for an exception handler goes on to the callers' frames (an exception injected on resume is a throw at the suspension point). Frames rebuilt from a saved state root their registers in their own guard (shared with C02). A finally handler is marked and dispatched without arguments (repaired, fix: commit).",
         ref="4/C07"),
 })
 
@@ -219,7 +219,7 @@ CHECKS.update({
              "every NeedImports list passes a de-duplication by resolved path; (live bindings) named/default imports are bound through an ImportBinding, "
              "exports that have a scope binding are published as getters and the stored value only on the no-binding edge, re-exports delegate; "
              "(termination) every cycle of the ready-module loop runs a module body and the runner removes its module from the pending table first. "
-             "All discharge on the current tree. That result and exports are equal for all supply orders is a matter of run-time values and not decided. The schedule of module bodies is not taken from the iteration order of a hash table (repaired, fix: commit).",
+             "All discharge on the current tree. That result and exports are equal for all supply orders is a matter of run-time values and not decided. The schedule of module bodies is not taken from the iteration order of a hash table (repaired, fix: commit). An export getter reads an imported binding through its import (repaired, fix: commit).",
         ref="4/C09"),
 })
 
